@@ -43,6 +43,10 @@ func extractionSchema(client bool) *Schema {
 	addMessage(f, message("ListNotesRequest", field("filter", "string")))
 	addMessage(f, message("Note", field("id", "string"), field("title", "string"), field("version", "int64")))
 	addMessage(f, message("NotFoundError", field("resource", "string"), field("id", "string")))
+	// one message per codec feature, so that the emitted codec functions exist as units (C05): a singular signed and
+	// unsigned NUMBER-encoded 64-bit field next to an ordinary field
+	addMessage(f, message("Counter", withOpt(field("n", "int64"), "sebuf.http.int64_encoding", "INT64_ENCODING_NUMBER"),
+		withOpt(field("u", "uint64"), "sebuf.http.int64_encoding", "INT64_ENCODING_NUMBER"), field("label", "string")))
 	hdr := func(name, typ, format string, required bool) M {
 		h := M{"name": name, "type": typ, "required": required}
 		if format != "" {
